@@ -43,6 +43,49 @@ RESULTS = {
  "C19-2": ("C19", ""), "C19-3": ("C19", ""), "C19-4": ("C19", "after forged IPv6 sources built from the negotiated IPv4 bytes were added"),
  "C20-1": ("C20", ""), "C20-2": ("C20", ""), "C20-3": ("C20", ""), "C20-4": ("C20", "after back channels in the stream description were added"),
 }
+# round 2: fresh sub-agents, told which changes round 1 had produced and asked for different ones
+RESULTS2 = {
+ "C01-r2-1": ("C01", "after the 'lossless UDP / multicast reader must receive something of every format' oracle was added"),
+ "C01-r2-2": ("C01", ""), "C01-r2-3": ("C01", "after back channels in stream descriptions were added"),
+ "C01-r2-4": ("", "MISSED: RLock instead of Lock around pion/srtp's encrypt (same change as C17-3): needs two goroutines interleaving inside the dependency"),
+ "C02-r2-1": ("C02", "after SETUPs for a media index that does not exist were added; server panic"),
+ "C02-r2-2": ("C02", "after the tunnelled live peer was added to the expiry workload"),
+ "C02-r2-3": ("C11", "same change as C11-4; caught by C11 (peer that stops reading) and C01, not by C02's own workloads"),
+ "C04-r2-1": ("C04", "thanks to tcp.coalesce (added for C04-2)"), "C04-r2-2": ("C04", ""), "C04-r2-3": ("C04", ""), "C04-r2-4": ("C04", ""),
+ "C07-r2-1": ("C07", "after frames with many units (up to the decoders' per-frame limits) were added"), "C07-r2-2": ("C07", ""), "C07-r2-3": ("C07", ""),
+ "C10-r2-1": ("C10", ""), "C10-r2-2": ("C10", ""),
+ "C10-r2-3": ("C10", "after requests with an Authorization header that carries no usable credentials were added"),
+ "C10-r2-4": ("C10", "after blank passwords were added"),
+ "C11-r2-1": ("", "MISSED: second POST half with a cookie that is being paired, within a window of a few goroutine switches in the server loop; no yield site there"),
+ "C11-r2-2": ("C11", ""),
+ "C11-r2-3": ("", "MISSED: needs one connection pipelining a request at the instant another connection of the same address tears its session down; C11's hostile connections come from different addresses"),
+ "C11-r2-4": ("C11", "after requests on '*' inside a session were added; server panic"),
+ "C12-r2-1": ("", "MISSED: needs a client through the HTTP tunnel against a server that stays connected but stops draining the POST channel; C12's scripted server does not speak the tunnel (with a real server the hang is bounded by the server's own timeout)"),
+ "C12-r2-2": ("C12", "after the sticky 401 behaviour was added"),
+ "C12-r2-3": ("", "MISSED: needs a UDP-multicast client and a SETUP answer with port=65535; C12 has no multicast"),
+ "C12-r2-4": ("C12", "client panic"),
+ "C13-r2-1": ("C13", "after ServerConn.Close from inside callbacks and coalesced deliveries were added; server crash"),
+ "C13-r2-2": ("C13", ""), "C13-r2-3": ("C13", "hang"),
+ "C13-r2-4": ("C13", "after back-channel talkers were added; server crash"),
+ "C14-r2-1": ("C14", "after the concurrent report mode (simulation-aware locks, yields in receiver.go) was added"),
+ "C14-r2-2": ("", "MISSED: client-side receiver created as reliable when AnyPortEnable meets a SETUP answer without server ports; no check drives that combination with reordering"),
+ "C14-r2-3": ("C14", ""), "C14-r2-4": ("C14", ""),
+ "C15-r2-1": ("", "OUTSIDE THE QUANTIFIER: the overflow needs more than 2^63/(1e9*rate) s between a time anchor and a report, i.e. a timestamp step beyond 2^31 ticks before the next packet can observe it"),
+ "C15-r2-2": ("", "MISSED: needs a writer whose NTP steps backwards; the generator's association between ticks and wall time is linear"),
+ "C15-r2-3": ("", "SILENT BY DESIGN: the statement does not say which packet anchors a late track when the leading track's last packet has PTS != DTS; the oracle accepts both readings (assumption listed in the evidence)"),
+ "C15-r2-4": ("C15", ""),
+ "C16-r2-1": ("C16", ""), "C16-r2-2": ("C11", "same change as C11-4"),
+ "C16-r2-3": ("C16", "after the executed-after-refused-PAUSE case was added to the capacity workload"),
+ "C17-r2-1": ("C17", "after the plain-profile reader inside TLS was added"),
+ "C17-r2-2": ("C17", "after the automatic-protocol reader behind a UDP blackhole was added"),
+ "C17-r2-3": ("C17", "server panic"),
+ "C17-r2-4": ("C17", "after the multicast reader with flowing sender reports and the 'everything must decrypt' oracle were added"),
+ "C18-r2-1": ("C18", ""), "C18-r2-2": ("C18", ""), "C18-r2-3": ("C18", ""), "C18-r2-4": ("C18", ""),
+ "C19-r2-1": ("C19", "after the quiet-source scenario (client-side timeout under forged traffic) was added"),
+ "C19-r2-2": ("C02", "after raw UDP peers with a non-consecutive client_port pair were added to C02's expiry workload; C19 drives a library client, which always asks for consecutive ports"),
+ "C19-r2-3": ("C19", ""),
+ "C20-r2-1": ("C20", ""), "C20-r2-2": ("C20", ""), "C20-r2-3": ("C20", ""),
+}
 confirmed = {}
 for line in open("/tmp/confirm-summary.log") if os.path.exists("/tmp/confirm-summary.log") else []:
     m = re.match(r"(C\d+)/(\d+) apply=(\S+) build=(\S+) tests=(\S+) demo_with=(\S+) demo_without=(\S+)", line)
@@ -56,10 +99,22 @@ for extra in ["/tmp/confirm-summary-early.log"]:
             if m:
                 confirmed.setdefault(f"{m.group(1)}-{m.group(2)}", dict(applies=m.group(3), builds=m.group(4), unedited_tests=m.group(5),
                                                         demo_with_patch=m.group(6), demo_without_patch=m.group(7)))
+if os.path.exists("/tmp/confirm2-summary.log"):
+    for line in open("/tmp/confirm2-summary.log"):
+        m = re.match(r"(C\d+)/r2-(\d+) apply=(\S+) build=(\S+) tests=(\S+) demo_with=(\S+) demo_without=(\S+)", line)
+        if m:
+            confirmed[f"{m.group(1)}-r2-{m.group(2)}"] = dict(applies=m.group(3), builds=m.group(4), unedited_tests=m.group(5),
+                                                               demo_with_patch=m.group(6), demo_without_patch=m.group(7))
+ALL = dict(RESULTS)
+ALL.update(RESULTS2)
 rows = []
-for sid in sorted(RESULTS):
-    pid, k = sid.split("-")
-    src = f"{SRC}/{pid}/{k}"
+for sid in sorted(ALL):
+    if "-r2-" in sid:
+        pid, k = sid.split("-r2-")
+        src = f"/tmp/seedout2/{pid}/{k}"
+    else:
+        pid, k = sid.split("-")
+        src = f"{SRC}/{pid}/{k}"
     if not os.path.isdir(src):
         print("missing", src); continue
     dst = f"{DST}/{sid}"
@@ -74,7 +129,7 @@ for sid in sorted(RESULTS):
         meta = json.load(open(f"{src}/meta.json"))
     except Exception as e:
         meta = {"title": "(meta.json of the author unreadable)"}
-    caught, note = RESULTS[sid]
+    caught, note = ALL[sid]
     out = {"id": sid, "property": pid, "author": "independent sub-agent given only the property text and its own scratch worktree",
            "title": meta.get("title"), "what_breaks": meta.get("what_breaks"), "needs": meta.get("needs"),
            "files": meta.get("files"), "author_tests_run": meta.get("tests_run"), "demo": meta.get("demo"),
